@@ -14,6 +14,7 @@ From V Require Import Base.Util Base.Strings Base.Result Model.Registry Model.Se
   Model.SizedReg
   Proofs.GenProofs Proofs.ResolveTotal Proofs.GenTotal Proofs.FidelityGen Proofs.ClosedProofs
   Proofs.SizedProofs Proofs.RankGraph.
+From V Require Proofs.ShapeBool.
 Import ListNotations.
 Open Scope string_scope. Open Scope list_scope. Open Scope nat_scope.
 
@@ -509,4 +510,28 @@ Theorem ranked_implies_boolean :
 Proof.
   intros r s rank Hf Hr teq m Hg. apply (sized_iff r s Hf teq m Hg).
   exact (sized_acyclic r s rank Hf Hr teq m Hg).
+Qed.
+
+(** the boolean of Model/Shape.v decides the [root_fresh] used here *)
+Lemma root_freshb_fresh s : Shape.root_freshb s = true -> root_fresh s.
+Proof.
+  intros H. destruct (ShapeBool.root_freshb_sound s H) as (A & _ & B & C).
+  split; [exact A|]. split; [exact B|].
+  intros k sub Hin. rewrite <- print_spath_head. exact (C k sub Hin).
+Qed.
+
+(** from decidable conditions only ([wf_regb], [supportedb]: Model/WellFormed.v, the run-time
+    hypothesis of C10_total_wf; [root_freshb]: Model/Shape.v): generation reports a duplicate
+    path, or it yields a module whose items are free of by-value cycles exactly when the boolean
+    holds *)
+Theorem sized_wf :
+  forall r s, wf_regb r = true -> supportedb r s = true -> Shape.root_freshb s = true ->
+  (exists p, generate r s (types_equal r) = Err (EDuplicatePath p)) \/
+  (exists m, generate r s (types_equal r) = Ok m /\
+             (by_value_acyclicb r s = true <-> forall n p, ~ walk (item_edge s m) n p p)).
+Proof.
+  intros r s Hw Hs Hf. apply root_freshb_fresh in Hf.
+  destruct (generate_total_wf r s Hw Hs) as [(m & Hg & _)|Hdup].
+  - right. exists m. split; [exact Hg|]. exact (sized_iff r s Hf (types_equal r) m Hg).
+  - left. exact Hdup.
 Qed.
